@@ -104,6 +104,7 @@ def run(ctx):
            "the row-count shortcut is taken only after inspecting the aggregate's argument and DISTINCT flag" if reads_arg and reads_distinct else
            "the table-header row-count shortcut does not look at the aggregate's %s: COUNT(column) is answered with the number of rows, NULLs included"
            % ("argument" if not reads_arg else "DISTINCT flag"), h.loc())
+    group_key_positional(ctx)
 
 
 def _fields_in(s):
@@ -116,3 +117,54 @@ def _fields_in(s):
                 walk(y)
     walk(s)
     return out
+
+
+def group_key_positional(ctx):
+    """G6 GROUP-KEY-POSITIONAL: the byte key that buckets rows for GROUP BY is the concatenation of one self-delimiting encoding per
+    grouping column.  Every column value that is read is encoded — NULL included (it has its own type prefix): if a NULL contributes no
+    bytes, (NULL, v) and (v, NULL) collide into one group."""
+    m = ctx.m
+    n = 0
+    for name in ("sql::util::compute_group_key_for_dynamic", "sql::util::compute_group_key_from_exprs"):
+        if name not in m.fns:
+            continue
+        f = m.fn(name)
+        group = [f]
+        enc = [c for c in f.calls if c.name.endswith("::encode_to_key")]
+        loops = f.loops()
+        items = list(loops.items()) if isinstance(loops, dict) else list(loops)
+        n += 1
+        ok, why = bool(enc) and bool(items), "no encode_to_key call inside a loop"
+        if ok:
+            h, body = min([(h, b) for h, b in items if any(c.bb in b for c in enc)] or [(None, set())], key=lambda x: len(x[1]))
+            if h is None:
+                ok = False
+            else:
+                # from every Option::Some edge inside the body (a value was obtained) the header must not be reachable around the encode
+                somes = []
+                for b in body:
+                    t = f.blocks[b]["t"]
+                    if t[0] == "switch" and t[2] != "bool":
+                        pl = operand_place(t[1])
+                        ds = f.defs().get(pl[0], []) if pl else []
+                        if ds and ds[0][0] == "stmt" and ds[0][3][0] == "disc" and f.locals[ds[0][3][1][0]].startswith("std::option::Option<") and "types::value::Value" in f.locals[ds[0][3][1][0]]:
+                            somes += [x[1] for x in t[3] if x[0] == 1]
+                blocked = {c.bb for c in enc}
+                skip = False
+                for s0 in somes:
+                    seen, st = set(), [s0]
+                    while st:
+                        b = st.pop()
+                        if b in seen or b in blocked:
+                            continue
+                        seen.add(b)
+                        for s in f.succ(b, unwind=False):
+                            if s == h:
+                                skip = True
+                            elif s in body:
+                                st.append(s)
+                ok = bool(somes) and not skip
+                why = "a grouping column value can be read without contributing bytes to the group key" if somes else "value read not recognised"
+        ctx.ob("G6.GROUP-KEY-POSITIONAL", name.rsplit("::", 1)[-1], ok, "every value read is encoded into the key (NULL has its own prefix)" if ok else
+               "%s: %s — rows whose NULLs sit in different grouping columns fall into one group" % (name.rsplit("::", 1)[-1], why), f.loc())
+    ctx.floor("G6.group_key_builders", n, 1)
